@@ -107,7 +107,7 @@ pub fn c07(tier: &str) -> i32 {
         for (label, cfg) in [("none", Cfg::new(p).flags(true, true)), ("full-unsafe@0.5", Cfg::new(p).flags(true, true).muts(&FULL, 0.5, true))] {
             let has_m = !cfg.mutators.is_empty();
             let opts = Opts { max_depth: if has_m { 1 } else { 2 }, max_memo: 2, dev_budget: 1, ref_in_key: false, frame: FrameSel::Both, collect_runs: true, ..Opts::default() };
-            let ex = Explorer { base_cfg: cfg.clone(), opts, monitor: &noop, xval_full: Default::default() };
+            let ex = Explorer { base_cfg: cfg.clone(), opts, monitor: &noop, xval_full: Default::default(), choice_discovery: Default::default() };
             let out = ex.explore(None);
             rep.add_stats(&format!("P{p}/{label}/replay-box"), &out.stats);
             // second and third generation of every run: in a rayon pool (reversed order) and on a fresh OS thread
@@ -181,7 +181,7 @@ pub fn c07(tier: &str) -> i32 {
                     continue;
                 }
                 let cfg = Cfg::new(p).flags(true, true).muts(&muts, rate, false);
-                let ex = Explorer { base_cfg: cfg.clone(), opts: Opts::default(), monitor: &noop, xval_full: Default::default() };
+                let ex = Explorer { base_cfg: cfg.clone(), opts: Opts::default(), monitor: &noop, xval_full: Default::default(), choice_discovery: Default::default() };
                 for put in &puts {
                     for get in &gets {
                         // NONE, PUT, (EMPTY_TUPLE/NONE, PUT)*, then GET with every index answer
@@ -244,7 +244,7 @@ pub fn c07(tier: &str) -> i32 {
         let put: Vec<u8> = if p >= 4 { vec![0x94] } else { vec![b'q', b'r', b'p'] };
         let n = 258usize;
         let cfg = Cfg::new(p).flags(true, true);
-        let ex = Explorer { base_cfg: cfg.clone(), opts: Opts::default(), monitor: &noop, xval_full: Default::default() };
+        let ex = Explorer { base_cfg: cfg.clone(), opts: Opts::default(), monitor: &noop, xval_full: Default::default(), choice_discovery: Default::default() };
         for get in [b'g', b'h', b'j'] {
             let mut plan: Vec<Vec<u8>> = vec![vec![b'N']];
             plan.extend(std::iter::repeat(put.clone()).take(n));
@@ -305,7 +305,7 @@ pub fn c07(tier: &str) -> i32 {
         // scripts chosen so that the threads touch everything global: GLOBAL/INST (lazily built module table) first
         for p in [0u8, 2, 5] {
             let cfg = Cfg::new(p).flags(true, true);
-            let ex = Explorer { base_cfg: cfg.clone(), opts: Opts::default(), monitor: &noop, xval_full: Default::default() };
+            let ex = Explorer { base_cfg: cfg.clone(), opts: Opts::default(), monitor: &noop, xval_full: Default::default(), choice_discovery: Default::default() };
             let mk = |plan: &[u8]| -> Option<Work> {
                 let planv: Vec<Vec<u8>> = plan.iter().map(|c| vec![*c]).collect();
                 let r = scenario(&ex, false, &planv).ok()?;
